@@ -254,6 +254,7 @@ def obligations(tier, rng):
     # unsupported table
     wraps = [lambda g: g, lambda g: ('not', g), lambda g: ('and', g, Y), lambda g: ('once', g)]
     wraps_ct = wraps + [lambda g: ('since', Y, g)]
+    wraps_pred = [lambda g: ('gt', g, ('const', 1.0)), lambda g: ('geq', ('add', ('abs', g), Y), ('const', 2.0)), lambda g: ('once_t', ('leq', Y, g), 0, 1)]       # the unsupported operator BELOW a comparison / arithmetic
     unb = [('eventually', X), ('always', X), ('until', X, Y), ('unless', X, Y)]
     for g in unb:
         for i, wfn in enumerate(wraps if not quick else wraps[:3]):
@@ -277,7 +278,7 @@ def obligations(tier, rng):
         out.append(ob('C17', 'reject_then', 'reject-then-pastify/ct-online/%s' % text(g), f=g, kind='ct-online', then='pastify', validate=0))
     dense_bad = [('prev', X), ('next', X), ('s_prev', X), ('s_next', X), ('rise', X), ('fall', X)]
     for g in dense_bad:
-        for wfn in (wraps_ct if not quick else wraps_ct[:3]):
+        for wfn in (wraps_ct + wraps_pred if not quick else wraps_ct[:3] + wraps_pred[:1]):
             f = wfn(g)
             for kind in ('ct-offline', 'ct-online', 'ct-combined-off', 'ct-combined-on'):
                 out.append(ob('C17', 'rejected', 'reject/%s/%s' % (kind, text(f)), f=f, kind=kind, validate=0))
@@ -286,7 +287,7 @@ def obligations(tier, rng):
     past_bad = [('next', X), ('s_next', X), ('prev', X), ('s_prev', X), ('rise', X), ('fall', X), ('until_t', X, Y, 0, 1), ('until_t', X, Y, 0, 0), ('until_t', X, Y, 1, 1),
                 ('unless_t', X, Y, 0, 0), ('until', X, Y), ('eventually', X), ('always', X), ('eventually_t', ('next', X), 0, 1), ('always_t', ('until_t', X, Y, 0, 0), 0, 1)]
     for g in past_bad:
-        for wfn in wraps_ct[:3] + [lambda g: ('eventually_t', g, 0, 1)]:
+        for wfn in wraps_ct[:3] + [lambda g: ('eventually_t', g, 0, 1)] + wraps_pred:
             f = wfn(g)
             for kind in ('ct-online-pastified', 'ct-combined-pastified'):
                 out.append(ob('C17', 'rejected', 'reject/%s/%s' % (kind, text(f)), f=f, kind=kind, validate=0))
